@@ -55,6 +55,43 @@ def gen(seed, tier):
         for special in (0, 0xFFFFFF, pi ^ ((v >> (nb - 32)) & 0xFFFFFF), int(valid_squitter(g)[0], 16) & 0xFFFFFF, pi ^ 0x800000, pi ^ 1):
             if special != pi and not (nb == 56 and (special ^ pi) < 128):
                 hist(f, "%0*X" % (nb // 4, (v & ~0xFFFFFF) | special))
+    # CRC-structured data: the leading part of the frame is itself a multiple of the generator and zeros follow (the
+    # division register is all zero in mid-frame), errors in the bits after that; also all-zero message fields
+    def clmul(a, b):
+        x = 0
+        while b:
+            if b & 1:
+                x ^= a
+            a <<= 1
+            b >>= 1
+        return x
+    made = 0
+    tries = 0
+    want = 24 if tier == "quick" else 400
+    while made < want and tries < 200000:
+        tries += 1
+        df = r.choice([17, 17, 18, 11])
+        nb = 56 if df == 11 else 112
+        nd = nb - 24
+        pq = clmul(0x1FFF409, r.getrandbits(r.randint(1, 22 if nb == 112 else 6)) | 1)
+        L = pq.bit_length()
+        lead = 1 if df != 11 else 2          # position (1-based) of the first set bit of the DF pattern
+        if L + lead - 1 > nd - (24 if nb == 112 else 0):
+            continue
+        data = pq << (nd - L - (lead - 1))
+        if data >> (nd - 5) != df:
+            continue
+        tail = r.choice([1, 1 << r.randint(0, 23), r.getrandbits(11), r.getrandbits(24)]) if nb == 112 else 0
+        good = with_parity_pi(data, nb)
+        for bad in ((data | tail) << 24, ((data | tail) << 24) | (good & 0xFFFFFF), (data << 24) | (1 << r.randint(7, 23))):
+            if bad != good and not (nb == 56 and (bad ^ good) < 128):
+                hist(hx(good, nb), hx(bad, nb))
+        made += 1
+    for df in (17, 18):
+        for a in (r.choice(ICAOS), 0x174077):
+            good = with_parity_pi((df << 83) | (5 << 80) | (a << 56) | (r.choice([0, 0x58, 0x99]) << 48), 112)
+            for b in (25, 30, 40):
+                hist(hx(good, 112), hx(good ^ (1 << r.randint(b - 1, b + 6)), 112))
     # bookkeeping: a failing frame must not tick the expiry sweep either -- stale rows (older than -d) stay while only
     # failing frames arrive, however many
     for i in range(6 if tier == "quick" else 60):
